@@ -558,6 +558,70 @@ func genFacts(w *bufio.Writer, repo string) error {
 
 	}
 
+	// the order of the file operations that swap rewritten files in (C05): the model's programs
+	// (Klev/Crash.lean, swapProg / deleteProg) assume exactly these orders
+	fileOps := func(fd *ast.FuncDecl) string {
+		var out []string
+		ast.Inspect(fd.Body, func(n ast.Node) bool {
+			c, ok := n.(*ast.CallExpr)
+			if !ok {
+				return true
+			}
+			f := exprStr(c.Fun)
+			if (f == "os.Remove" || f == "os.Rename") && len(c.Args) >= 1 {
+				arg := exprStr(c.Args[len(c.Args)-1]) // the file that appears / disappears
+				kind := "?"
+				switch {
+				case strings.HasSuffix(arg, ".Index"):
+					kind = "index"
+				case strings.HasSuffix(arg, ".Log"):
+					kind = "log"
+				}
+				out = append(out, strings.TrimPrefix(f, "os.")+":"+kind)
+			}
+			return true
+		})
+		return strings.Join(out, ",")
+	}
+	strFacts := map[string]string{}
+	for _, fn := range []string{"Override", "Rename", "Remove"} {
+		fd := segGo.fn("Segment", fn)
+		if err := need(fd, "Segment."+fn); err != nil {
+			return err
+		}
+		strFacts["segment"+fn+"Steps"] = fileOps(fd)
+	}
+	// reader.Delete / writer.Delete: which segment-level operations, in which order, on each path
+	calls := func(fd *ast.FuncDecl, of ...string) string {
+		var out []string
+		ast.Inspect(fd.Body, func(n ast.Node) bool {
+			if c, ok := n.(*ast.CallExpr); ok {
+				f := exprStr(c.Fun)
+				for _, o := range of {
+					if f == o {
+						out = append(out, f)
+					}
+				}
+			}
+			return true
+		})
+		return strings.Join(out, ",")
+	}
+	readerGo, err := parseGo(filepath.Join(repo, "log_reader.go"))
+	if err != nil {
+		return err
+	}
+	rd := readerGo.fn("reader", "Delete")
+	if err := need(rd, "reader.Delete"); err != nil {
+		return err
+	}
+	strFacts["readerDeleteCalls"] = calls(rd, "rs.Remove", "r.segment.Remove", "rs.Rename", "rs.Override")
+	wd := writerGo.fn("writer", "Delete")
+	if err := need(wd, "writer.Delete"); err != nil {
+		return err
+	}
+	strFacts["writerDeleteCalls"] = calls(wd, "rs.Remove", "w.segment.Remove", "rs.Rename", "rs.Override", "openWriter")
+
 	names := make([]string, 0, len(facts))
 	for k := range facts {
 		names = append(names, k)
@@ -567,6 +631,14 @@ func genFacts(w *bufio.Writer, repo string) error {
 	fmt.Fprintln(w, "namespace Klev.Gen")
 	for _, k := range names {
 		fmt.Fprintf(w, "def %s : Bool := %v\n", k, facts[k])
+	}
+	var snames []string
+	for k := range strFacts {
+		snames = append(snames, k)
+	}
+	sort.Strings(snames)
+	for _, k := range snames {
+		fmt.Fprintf(w, "def %s : String := %q\n", k, strFacts[k])
 	}
 	fmt.Fprintln(w, "end Klev.Gen")
 	return nil
